@@ -134,7 +134,19 @@ def st_client(ctx):
     ctx.run_driver(["client-gen", "--seed", 3, "--n", 20, "--len", 12, "--profile", "C17", "--out", sp2])
     ctx.driver_json(["client-run", "--in", sp2, "--out", tp2, "--all"])
     r3 = load(tp2)
-    k = next(k for k, r in enumerate(r3) if r.get("k") == "op" and r["name"] == "WaitForPendingACKs" and r["pops"] > 0)
+    # in the first trace that has one (a trace whose socket went out of step earlier is no longer judged: take
+    # one whose operations all returned nil up to there)
+    clean, k = True, None
+    for idx, r in enumerate(r3):
+        if r.get("k") == "reset":
+            clean = True
+        elif r.get("k") == "op":
+            if clean and r["name"] == "WaitForPendingACKs" and r["pops"] > 0 and r["ret"] == "nil":
+                k = idx
+                break
+            clean = clean and r["ret"] == "nil"
+    if k is None:
+        raise StopIteration
     r3[k]["pops"] += 1
     expect_flag(ctx, "client", "ClientTrace", r3, "C17", "the number of frames WaitForPendingACKs consumed", xss="64m")
     expect_model_rejected(ctx, "client", "MC_Client", fam_client.mc_cfg("C08", 2, False, bug="DeleteIgnoresAck"), "DeleteRule ignores its ACK")
@@ -273,7 +285,22 @@ def st_normalize(ctx):
                 "the fields an entry looks for as subject_primary", xss="64m")
 
 
-FAMILIES = [("normalize", st_normalize), ("reassembler", st_reassembler), ("conc", st_conc), ("client", st_client), ("netlink", st_netlink), ("rule", st_rule),
+def st_cache(ctx):
+    """Beyond the list: the id cache used by several goroutines at once."""
+    tp = ctx.path("st", "cache.ndjson")
+    ctx.driver_json(["cache-run", "--out", tp, "--seed", ctx.seed, "--n", 3, "--len", 20, "--conc", 6])
+    recs = load(tp)
+    expect_clean(ctx, "cache", "CacheTrace", recs, ["CACHE"])
+    r1 = copy.deepcopy(recs)
+    i = next(i for i, r in enumerate(r1) if r.get("op") == "clookup" and r["store_said"] and not r["called"])
+    r1[i]["ret"] = ""
+    expect_flag(ctx, "cache", "CacheTrace", r1, "CACHE", "a concurrent lookup answered from another's unfinished entry")
+    cfg = "\n".join(["SPECIFICATION MCSpec", "CONSTANTS", ' Procs = {"p1", "p2"}', ' Keys = {"7"}', ' Values = {"alice"}', " MaxCalls = 3",
+                     ' Bug = "ReleaseDuringConsult"', "INVARIANTS NoFlags", "CHECK_DEADLOCK FALSE"]) + "\n"
+    expect_model_rejected(ctx, "cache", "MC_IdCacheConc", cfg, "lock dropped while the store is consulted")
+
+
+FAMILIES = [("cache", st_cache), ("normalize", st_normalize), ("reassembler", st_reassembler), ("conc", st_conc), ("client", st_client), ("netlink", st_netlink), ("rule", st_rule),
             ("parse", st_parse), ("coalesce", st_coalesce), ("tables", st_tables)]
 
 
